@@ -323,7 +323,7 @@ def run(ctx):
             r.check(len(sc) == 1 and "overwrite_permitted" in describe_operand(st, sc[0].args[3]), "SendCommand::step/appends-one-record", where(st), "SendCommand sends one ad hoc command per step with its own overwrite flag")
 
 
-    with ctx.rule("C14.R10", "T1+T7", "every frame is addressed with the lane it belongs to (the sender's lane name is set per frame, for the lane of that frame)", floor=15) as r:
+    with ctx.rule("C14.R10", "T1+T7", "every frame is addressed with the lane it belongs to (the sender's lane name is set per frame, for the lane of that frame)", floor=7) as r:
         uplinks.frame_lane_name(r, ctx)
 
 
